@@ -23,6 +23,8 @@ def gen_comp(rng, max_pins=3, kind="random"):
 def nports(desc, ch):
     if "empty" in ch:
         return 0
+    if "zombie" in ch:
+        return 2
     return ch["leaf"]["n"] if "leaf" in ch else len(desc["defs"][ch["sub"]]["expo"])
 
 
@@ -61,6 +63,8 @@ def gen_hier(rng: random.Random, ndefs=3, max_children=3, max_pins=3, leaf_p=0.5
         rng.shuffle(free)
         kk = len(free) if rng.random() < 0.4 else rng.randint(1 if free else 0, len(free))
         d["expo"] = [[p[0], p[1], f"x{i}"] for i, p in enumerate(free[:kk])]
+        if rng.random() < 0.3:      # declared against alphabetical order
+            d["expo"] = [[p[0], p[1], f"x{kk - 1 - i}"] for i, p in enumerate(free[:kk])]
         if free and rng.random() < 0.3:
             # raise_pins style: some pins named by hand, ALL the other free pins raised under their own names
             # (possible when those names are distinct; a hand-named pin may share its internal name with them)
@@ -84,6 +88,8 @@ def gen_hier(rng: random.Random, ndefs=3, max_children=3, max_pins=3, leaf_p=0.5
 def port_name(desc, ch, port):
     if "leaf" in ch:
         return f"p{port}"
+    if "zombie" in ch:
+        return f"z{port}"
     return desc["defs"][ch["sub"]]["expo"][port][2]
 
 
@@ -111,6 +117,15 @@ def build_all(desc):
             for ci, ch in enumerate(d["children"]):
                 if "empty" in ch:
                     sts.append(empty_model(ch.get("ekind", 0)).put())
+                elif "zombie" in ch:
+                    # a sub-solver that is wired while it has pins and EMPTIED afterwards (the caller removes its only
+                    # component once everything is built): a dead branch that still owns connected pins
+                    zs = lk.Solver(name="zombie")
+                    inner = Structure(model=netlib.comp_model(ch["zombie"]))
+                    zs.add_structure(inner)
+                    zs.map_pins({"z0": inner.pin["p0"], "z1": inner.pin["p1"]})
+                    built.setdefault("zombies", []).append((zs, inner))
+                    sts.append(zs.put())
                 elif "leaf" in ch:
                     sts.append(netlib.comp_model(ch["leaf"]).put())
                 else:
@@ -129,7 +144,22 @@ def build_all(desc):
                 lk.connect(sts[a[0]].pin[port_name(desc, d["children"][a[0]], a[1])],
                            sts[b[0]].pin[port_name(desc, d["children"][b[0]], b[1])])
             auto = set(d.get("auto", []))
+            # a child ALL of whose ports are exposed here may be raised in one call that only gives the new names:
+            # Structure.raise_pins(pino=[...]) pairs them with the child's pins in the child's own order
+            whole = set()
+            if not auto:
+                for ci, ch in enumerate(d["children"]):
+                    mine = sorted((port, name) for c, port, name in d["expo"] if c == ci)
+                    np_ = nports(desc, ch)
+                    ok = ("leaf" in ch and not ch["leaf"].get("bare")) or ("sub" in ch and not desc["defs"][ch["sub"]].get("auto"))
+                    if ok and np_ >= 2 and [p for p, _ in mine] == list(range(np_)) and prng.random() < 0.5:
+                        byport = {port_name(desc, ch, port): name for port, name in mine}
+                        # the new names, listed in the order in which the placed child lists its own pins
+                        sts[ci].raise_pins(pino=[byport[pin.name] for (_, pin) in sts[ci].pin_list])
+                        whole.add(ci)
             for c, port, name in d["expo"]:
+                if c in whole:
+                    continue
                 if name not in auto:
                     lk.Pin(name).put(sts[c].pin[port_name(desc, d["children"][c], port)])
             if auto:
@@ -177,7 +207,7 @@ def instantiate(desc):
         d = desc["defs"][k]
         terms, ports = [], []
         for ch in d["children"]:
-            if "empty" in ch:
+            if "empty" in ch or "zombie" in ch:
                 i = counter[0]
                 counter[0] += 1
                 terms.append(f"HLeaf {cnat(i)} 0%nat []")
@@ -193,8 +223,9 @@ def instantiate(desc):
                 t, ex = inst(ch["sub"])
                 terms.append(t)
                 ports.append(ex)
+        zomb = {c for c, ch in enumerate(d["children"]) if "zombie" in ch}
         conns = clist(f"({netlib.spin(*ports[a[0]][a[1]])}, {netlib.spin(*ports[b[0]][b[1]])})"
-                      for a, b in d["conns"])
+                      for a, b in d["conns"] if a[0] not in zomb and b[0] not in zomb)   # its links vanish with it
         ex = [ports[c][p] for c, p, _ in d["expo"]]
         term = "HSub %s %s %s" % (clist("(" + t + ")" for t in terms), conns,
                                   clist(netlib.spin(*e) for e in ex))
